@@ -15,8 +15,19 @@ Inductive case :=
          (via_execute : bool) (senders : list peer)
          (impl_calls : list (list peer)) (impl_excluded_ok : bool)
          (impl_announced impl_run : option (list peer))
+(* [impl_coordinates]: the relayer was seen doing the coordinator's side of the attempt (it subscribed to
+   ready messages / broadcast an initiate message) *)
 | Wait (keys : list N) (holders : list peer) (self : peer) (msgs : list wmsg)
-       (impl_outs : list wout) (impl_other_error : bool)
+       (impl_outs : list wout) (impl_coordinates impl_other_error : bool)
+(* several overlapping sessions on ONE Coordinator object of one relayer: [skeys] = the peers' sort keys
+   per session (session = position), [script] = the messages in the order they were handed over, each
+   tagged with its session; [impl_outs] = what the relayer did, per session; [impl_coordinates] = it
+   was seen doing the coordinator's side in some session.  [winners] = per session, None: the session is
+   in its first attempt; Some w: its first attempt failed retryably and the scripted bully election was won
+   by w - the script and the actions are those of the RETRIED attempt (watcher told the empty id) *)
+| Multi (skeys : list (list N)) (winners : list (option peer)) (holders : list peer) (self : peer)
+        (script : list (session * wmsg))
+        (impl_outs : list (list wout)) (impl_coordinates impl_other_error : bool)
 (* the retried attempt after a retryable failure of the first one; [c2] = the coordinator of the
    retried attempt as the scripted bully election determines it (a scripted earlier candidate that
    announced itself, or this relayer when nobody answered) *)
@@ -73,6 +84,27 @@ Definition timed_model (c : peer) (c2 : option peer) (cto tto horizon : N) (msgs
   | Some _ => timed_retry c cto tto horizon msgs
   end.
 
+(* the coordinator of every session of a multi-session case, and what its watcher was told *)
+Definition multi_coords (skeys : list (list N)) (winners : list (option peer)) (holders : list peer)
+  : session -> option peer :=
+  fun s => match nth (N.to_nat s) winners None with
+           | Some w => Some w
+           | None => match nth_error skeys (N.to_nat s) with
+                     | Some ks => coordinator (key_of ks) holders
+                     | None => None
+                     end
+           end.
+Definition multi_watchers (skeys : list (list N)) (winners : list (option peer)) (holders : list peer)
+  : session -> option peer :=
+  fun s => match nth (N.to_nat s) winners None with
+           | Some _ => None
+           | None => multi_coords skeys winners holders s
+           end.
+Definition sessions_of (skeys : list (list N)) : list session :=
+  map N.of_nat (seq 0 (length skeys)).
+Definition outs_of (impl_outs : list (list wout)) (s : session) : list wout :=
+  nth (N.to_nat s) impl_outs [].
+
 Definition agree (c : case) : bool :=
   match c with
   | Elect keys holders perm s s' co co' =>
@@ -87,12 +119,21 @@ Definition agree (c : case) : bool :=
       let (mc, ma) := initiate k holders t excluded [self] senders in
       lists_eqb mc calls && exok && opt_list_eqb ma ann && opt_list_eqb ma run
       && (if via : bool then opt_peer_eqb (coordinator k holders) (Some self) else true)
-  | Wait keys holders self msgs outs other =>
+  | Wait keys holders self msgs outs coordinates other =>
       let k := key_of keys in
       match coordinator k holders with
       | None => false
       | Some c => negb (N.eqb c self) && wouts_eqb (snd (run_wait (Some c) Waiting msgs)) outs && negb other
+                  && Bool.eqb (takes_coordinator_role (Some c) self) coordinates
       end
+  | Multi skeys winners holders self script outs coordinates other =>
+      let cs := multi_coords skeys winners holders in
+      let m := multi_run2 (multi_watchers skeys winners holders) cs all_waiting script in
+      Nat.eqb (length outs) (length skeys) && negb coordinates && negb other
+      && forallb (fun s => match cs s with
+                           | None => false
+                           | Some c => negb (N.eqb c self) && wouts_eqb (of_session s m) (outs_of outs s)
+                           end) (sessions_of skeys)
   | RetryWait keys holders self c2 msgs outs other =>
       negb (N.eqb c2 self) && wouts_eqb (snd (retry_wait c2 msgs)) outs && negb other
   | RetryCoord keys holders t excluded self evs run aborted other =>
@@ -128,11 +169,24 @@ Definition judge (c : case) : bool :=
       | Some sub => subset_ok holders t excluded self senders sub && opt_list_eqb run (Some sub)
       | None => match run with None => true | Some _ => false end
       end
-  | Wait keys holders self msgs outs other =>
+  | Wait keys holders self msgs outs coordinates other =>
       match coordinator (key_of keys) holders with
       | None => true
-      | Some c => outs_justified c msgs outs
+      | Some c =>
+          (* every action is caused by a message of the coordinator, and a relayer that is not the
+             coordinator does not play its part *)
+          outs_justified c msgs outs
+          && (if N.eqb c self then true else negb coordinates)
       end
+  | Multi skeys winners holders self script outs coordinates other =>
+      (* the judge of the wait cases, session by session, on that session's messages and actions *)
+      let cs := multi_coords skeys winners holders in
+      forallb (fun s => match cs s with
+                        | None => true
+                        | Some c => outs_justified c (of_session s script) (outs_of outs s)
+                        end) (sessions_of skeys)
+      && (if existsb (fun s => match cs s with Some c => N.eqb c self | None => true end) (sessions_of skeys)
+          then true else negb coordinates)
   | RetryWait keys holders self c2 msgs outs other => outs_justified c2 msgs outs
   | RetryCoord keys holders t excluded self evs run aborted other =>
       if negb (memb self holders) || memb self excluded then true
@@ -152,7 +206,12 @@ Definition tag (c : case) : N :=
   | Subset keys holders t excluded self via senders _ _ _ _ =>
       (match snd (initiate (key_of keys) holders t excluded [self] senders) with Some _ => 5 | None => 4 end
        + (if via : bool then 0 else 2) + (match excluded with [] => 0 | _ => 4 end))%N
-  | Wait keys holders self msgs _ _ =>
+  | Multi skeys winners holders self script _ _ _ =>
+      let cs := multi_coords skeys winners holders in
+      let m := multi_run2 (multi_watchers skeys winners holders) cs all_waiting script in
+      (60 + N.of_nat (length skeys) + (if existsb (fun w : option peer => match w with Some _ => true | None => false end) winners then 20 else 0)
+       + (if existsb (fun x : session * wout => match snd x with OAbort => true | _ => false end) m then 10 else 0))%N
+  | Wait keys holders self msgs _ _ _ =>
       match coordinator (key_of keys) holders with
       | None => 20
       | Some c =>
